@@ -31,6 +31,27 @@ def _setup():
     _ready = True
 
 
+_RAISE_SPANS = {}
+
+
+def _in_raise_statement(fname, lineno):
+    """Is source line `lineno` of `fname` part of a `raise` statement (possibly spanning several lines)?"""
+    import ast
+    spans = _RAISE_SPANS.get(fname)
+    if spans is None:
+        spans = []
+        try:
+            with open(fname, encoding='utf-8') as f:
+                tree = ast.parse(f.read())
+            for node in ast.walk(tree):
+                if isinstance(node, ast.Raise):
+                    spans.append((node.lineno, getattr(node, 'end_lineno', node.lineno)))
+        except (OSError, SyntaxError):
+            pass
+        _RAISE_SPANS[fname] = spans
+    return any(a <= lineno <= b for a, b in spans)
+
+
 def classify_exception(exc):
     """DESIGN.md C17: an error is a *diagnostic* iff the innermost traceback
     frame is a ``raise`` statement located in the repo's own sources."""
@@ -40,17 +61,7 @@ def classify_exception(exc):
         last = tb[-1]
         fname = os.path.abspath(last.filename)
         inrepo = fname.startswith(os.path.abspath(REPO) + os.sep)
-        line = (last.line or linecache.getline(last.filename, last.lineno)).strip()
-        # multi-line raise statements: look a few lines up for the raise keyword
-        israise = line.startswith('raise')
-        if not israise and inrepo:
-            for back in range(1, 6):
-                prev = linecache.getline(last.filename, last.lineno - back).strip()
-                if prev.startswith('raise'):
-                    israise = True
-                    break
-                if prev.endswith(':') or prev == '':
-                    break
+        israise = inrepo and _in_raise_statement(fname, last.lineno)
         diag = bool(inrepo and israise)
         where = '%s:%s' % (os.path.relpath(fname, REPO) if inrepo else fname, last.name)
     return {'type': type(exc).__name__, 'msg': str(exc)[:400], 'diag': diag, 'where': where}
